@@ -19,8 +19,11 @@ CACHE = os.environ.get("PEST_CACHE") or os.path.join(VERIF, ".cache")
 # name -> cargo arguments.  Facts are per configuration because cfg changes the program.
 CONFIGS = {
     "default": ["--workspace"],
-    "extras": ["-p", "pest_meta", "-p", "pest_vm", "-p", "pest_generator",
-               "--features", "pest_meta/grammar-extras,pest_vm/grammar-extras,pest_generator/grammar-extras"],
+    # grammar-extras everywhere it exists; pest_grammars is included so that its derive expansions are the ones a
+    # build with `pest_derive/grammar-extras` unified in would get
+    "extras": ["-p", "pest_meta", "-p", "pest_vm", "-p", "pest_generator", "-p", "pest_derive", "-p", "pest_grammars",
+               "--features", "pest_meta/grammar-extras,pest_vm/grammar-extras,pest_generator/grammar-extras,"
+                             "pest_derive/grammar-extras"],
     "nomemchr": ["-p", "pest", "--no-default-features"],
     "pestall": ["-p", "pest", "--features", "pretty-print,const_prec_climber"],
 }
@@ -58,6 +61,7 @@ def repo_hash(repo=None):
     if repo in _hash_cache:
         return _hash_cache[repo]
     h = hashlib.sha256()
+    h.update(repr(sorted(CONFIGS.items())).encode())
     for tool in (DRIVER, SYNX):
         if os.path.exists(tool):
             with open(tool, "rb") as fh:
